@@ -172,6 +172,13 @@ func main() {
 			fatal2("replay needs a file")
 		}
 		os.Exit(replay(os.Args[2]))
+	case "selfcheck":
+		// diagnosis: one run spec (JSON file with {"property":..,"spec":{..}}) executed in
+		// search mode and replayed from its own tape; prints the first difference
+		if len(os.Args) < 3 {
+			fatal2("selfcheck needs a file")
+		}
+		os.Exit(selfcheck(os.Args[2]))
 	case "determinism":
 		if len(os.Args) < 3 {
 			fatal2("determinism needs a property id")
@@ -210,14 +217,22 @@ func build(scratch string, race bool) string {
 	}
 	bin := filepath.Join(scratch, "harness.test")
 	args := []string{"test", "-c", "-tags", "verif", "-overlay", filepath.Join(scratch, "overlay.json"), "-o", bin}
-	if repoDir != "/repo" {
-		// a scratch tree: same module file with the replace directive pointing there
+	{
+		// the build's own module file: the replace directive of ship-go points at the
+		// tree under test, plus the patched copies of dependencies simgen produced
 		mod, err := os.ReadFile(filepath.Join(verifDir, "go.mod"))
 		if err != nil {
 			fatal2("%v", err)
 		}
 		sum, _ := os.ReadFile(filepath.Join(verifDir, "go.sum"))
 		alt := strings.Replace(string(mod), "=> /repo", "=> "+repoDir, 1)
+		if extra, err := os.ReadFile(filepath.Join(scratch, "replaces.txt")); err == nil {
+			for _, l := range strings.Split(strings.TrimSpace(string(extra)), "\n") {
+				if l != "" {
+					alt += "\nreplace " + l + "\n"
+				}
+			}
+		}
 		_ = os.WriteFile(filepath.Join(scratch, "go.mod"), []byte(alt), 0o644)
 		_ = os.WriteFile(filepath.Join(scratch, "go.sum"), sum, 0o644)
 		args = append(args, "-modfile", filepath.Join(scratch, "go.mod"))
@@ -634,6 +649,36 @@ func replaySpec(bin, scratch string, spec RunSpec) (RunResult, error) {
 		}
 	}
 	return RunResult{}, fmt.Errorf("no result from replay worker\n%s", tail(out, 30))
+}
+
+func selfcheck(path string) int {
+	raw, err := os.ReadFile(path)
+	if err != nil {
+		fatal2("%v", err)
+	}
+	var rf ReplayFile
+	if err := json.Unmarshal(raw, &rf); err != nil {
+		fatal2("%v", err)
+	}
+	meta := props[rf.Property]
+	scratch, err := os.MkdirTemp("", "verif-selfcheck-")
+	if err != nil {
+		fatal2("mktemp: %v", err)
+	}
+	defer os.RemoveAll(scratch)
+	bin := build(scratch, meta.Race)
+	spec := rf.Spec
+	lines, out, err := runWorker(bin, Job{Mode: "selfcheck", Prop: spec.Prop, Spec: &spec}, scratch, "selfcheck", 10*time.Minute)
+	if err != nil {
+		fatal2("selfcheck failed: %v\n%s", err, tail(out, 30))
+	}
+	for _, m := range lines {
+		if kind(m) == "selfcheck" {
+			b, _ := json.MarshalIndent(m, "", " ")
+			fmt.Println(string(b))
+		}
+	}
+	return 0
 }
 
 func replay(path string) int {
